@@ -636,3 +636,65 @@ pub fn pin_to_cpus(start: usize, n: usize) {
 pub fn self_exe() -> String {
     std::env::current_exe().unwrap().to_string_lossy().into_owned()
 }
+
+/// True when every other thread of this process is asleep and consumed no CPU for a second:
+/// nothing inside the process can make progress any more (used to turn "did not happen within the
+/// grace period" into a logical verdict, DESIGN 3.5).
+pub fn process_quiescent() -> Option<bool> {
+    let pid = std::process::id() as i32;
+    let me = gettid();
+    let snap = || -> Option<Vec<(i32, TaskSnap)>> {
+        let mut v = Vec::new();
+        for e in fs::read_dir("/proc/self/task").ok()? {
+            let tid: i32 = e.ok()?.file_name().to_str()?.parse().ok()?;
+            if tid != me {
+                if let Some(s) = task_snap(pid, tid) {
+                    v.push((tid, s));
+                }
+            }
+        }
+        Some(v)
+    };
+    let a = snap()?;
+    std::thread::sleep(Duration::from_millis(1000));
+    let b = snap()?;
+    if a.len() != b.len() {
+        return Some(false);
+    }
+    for ((t1, s1), (t2, s2)) in a.iter().zip(b.iter()) {
+        if t1 != t2 || s1.state != 'S' || s2.state != 'S' || s1.cpu != s2.cpu {
+            return Some(false);
+        }
+    }
+    Some(true)
+}
+
+/// Wait until `cond` holds. After `grace_ms` without it, decide: Ok(true) = happened,
+/// Ok(false) = provably never will (process quiescent), Err = undecided.
+pub fn await_cond(grace_ms: u64, cond: &dyn Fn() -> bool) -> Result<bool, String> {
+    let t0 = now_ns();
+    loop {
+        if cond() {
+            return Ok(true);
+        }
+        if now_ns() - t0 > grace_ms * 1_000_000 {
+            return match process_quiescent() {
+                Some(true) => {
+                    if cond() {
+                        Ok(true)
+                    } else {
+                        Ok(false)
+                    }
+                },
+                _ => {
+                    if cond() {
+                        Ok(true)
+                    } else {
+                        Err("condition not reached, process not quiescent".into())
+                    }
+                },
+            };
+        }
+        std::thread::sleep(Duration::from_micros(300));
+    }
+}
